@@ -198,6 +198,8 @@ def sub (s o : SLR) : Except PyErr SLR := do
   let n ← o.neg
   s.add n
 
+/-- `__sub__` with a `csr_matrix`: `sparse_mat - other` (repair F16t; the pinned code added `-other`, whose negation
+wraps in an unsigned or minimal narrow integer type — over ℚ the two are the same matrix) -/
 def subCsr (s : SLR) (a : Mat) : Except PyErr SLR := s.addCsr a.neg
 
 /-- `__mul__` with a scalar -/
